@@ -130,10 +130,10 @@ def r3(ctx, rep):
     syn = ctx.syn
     f = sorting_fn(syn)
     ok = False
-    for n in walk(f["body"]):
-        if n.get("k") == "if" and show(n["c"]) == "!self.main_relation":
-            t = show_stmts_deep(n["t"])
-            ok = "select.push(cid)" in t and "select.contains(&cid)" in t and any(x.get("k") == "for" and show(x["e"]) == "&sorting" for x in walk(n["t"]))
+    import guards as _g
+    for blk in _g.branches_when(f["body"], "self.main_relation", False):
+            t = show_stmts_deep(blk)
+            ok = ok or ("select.push(cid)" in t and "select.contains(&cid)" in t and any(x.get("k") == "for" and show(x["e"]) == "&sorting" for x in walk(blk)))
     rep.check(ok, "cte-projection", "a CTE must project every column of its sorting that it does not already select (the outer ORDER BY refers to them)", file=f["file"], line=f["l"], fn=f["path"])
     txt = show_stmts(f["body"], maxdepth=6)
     rep.check("self.last_sorting = sorting" in txt, "remember", "the pipeline's sorting must be remembered for the referencing pipeline", file=f["file"], line=f["l"], fn=f["path"])
@@ -405,6 +405,13 @@ def r7(ctx, rep):
     rep.borrowed(C01.r4, ctx, "C03.R7b", "sort keys embedded in Take / Sort / windows are redirected at a split like any other column id", only=r"(Take|Sort|ColumnSort|Window)")
 
 
+def r8(ctx, rep):
+    # `take` selects rows by position BEFORE anything that follows it is computed: a window / aggregate compute hoisted in front of the take is evaluated
+    # over all rows in the SELECT that carries ORDER BY / LIMIT (`take 3..5 | group g (sort a | take 1)` loses groups)
+    import C01
+    rep.borrowed(C01.r6, ctx, "C03.R8", "only plain computes are moved in front of a take")
+
+
 def run(ctx, rep):
-    for r in (r1_r2, r3, r4, r5, r6, r7):
+    for r in (r1_r2, r3, r4, r5, r6, r7, r8):
         rep.guard(r, ctx)
